@@ -24,7 +24,7 @@ TECHNIQUE = "Coq proof of the transcribed comparison/hash bodies against exact-v
 RULE = ("cases = {ord, abs, hash, cmp} x every implemented (left type, right type) pair of UBig, IBig, u8..u128/usize, i8..i128/isize, f32, "
         "f64, FBig and Repr in bases 2/3/10/16, RBig, Relaxed x value classes {equal across types, neighbours differing in the last bit / "
         "last digit / numerator +-1, ratio 1 + 2^-k for k up to 40 (around the width of the f32 estimates), bit lengths at the filter "
-        "thresholds 24+128 and 53+1024 +-1, floats below 1/2 against 0 and +-1, exponents +-10^6 and 2^40 where scaling is impossible, "
+        "thresholds 24+128 and 53+1024 +-1, floats below 1/2 against 0 and +-1, exponents +-10^6, 2^40 and the ends of the isize range (2^61, 2^62, 2^63-1) where scaling is impossible, "
         "infinities, -0.0, NaN, subnormals, MAX/MIN of every primitive, multiples of 2^127-1 in numerators, denominators and exponents "
         "that are multiples of 127}. non-trivial = the oracle evaluated the specification on operands that are not both zero; distinct = "
         "distinct case texts.")
@@ -40,7 +40,8 @@ TRUSTED_BASE = [
 ]
 ASSUMPTIONS = [
     "EstimatedLog2::log2_bounds and Repr::digits_ub return sound bounds (their f32 arithmetic is the subject of other checks); the theorems hold for every sound estimator",
-    "rationals have positive denominators, float bases are >= 2, exponents fit isize without overflow in bit_len(B) * exponent",
+    "rationals have positive denominators, float bases are >= 2; exponent arithmetic is unbounded (Z) in the models - the two places where the code left the isize range were repaired (F05, F06) and exponents up to +-(2^63-1) are generated; isize::MIN itself is not (hlib::isz cannot carry it)",
+    "exact-path scaling by B^|e| is only exercised up to |e| = 10^6 (beyond that the generator keeps the operands far enough apart for the filters to decide, as the real code would otherwise try to allocate the power)",
     "NumHash of infinities and NaN is outside the property (no exact value)",
 ]
 
@@ -410,6 +411,16 @@ def gen_cases(rng, tier, n):
             out.append("abs %s %s" % (a, b))
         elif k < 78:
             ka = rng.choice(FK)
+            if rng.chance(1, 4):
+                # both ends of the exponent range: repr_cmp_same_base adds a digit count to an exponent
+                top = (1 << 63) - 1
+                e1 = rng.choice([top, top - 1, 1 << 62, -top, -(1 << 62)])
+                e2 = -e1 if rng.chance(1, 2) else e1 - rng.choice([0, 1, 2, 5]) * (1 if e1 > 0 else -1)
+                sg = lambda: rng.choice([1, -1, 7, -7, 11, -13, 49, 77, 1001, -1001, 7 ** 30])   # no factor 2, 3, 5: nothing to normalise
+                a = "%s:%x:%s:%s" % (ka, rng.choice([0, 3]), hx(sg()), hx(e1))
+                b = "%s:%x:%s:%s" % (ka, rng.choice([0, 3]), hx(sg()), hx(e2))
+                out.append("%s %s %s" % (rng.choice(["abs", "cmp"]), a, b))
+                continue
             a, b = gen_pair(rng, tier, ka, ka)
             out.append("cmp %s %s" % (a, b))
         elif k < 82:
@@ -423,6 +434,22 @@ def gen_cases(rng, tier, n):
                     # same base: 10^6 digits can still be scaled (slowly); beyond that only when the signs of the exponents differ
                     a = huge_tok(rng, ka, very=False)
                     b = huge_tok(rng, kb, very=False)
+                elif kb == ka:
+                    # the two ends of the exponent range (estimates decide; same-base AbsOrd/Ord add digits to an exponent)
+                    top = (1 << 63) - 1
+                    e1 = rng.choice([top, top - 1, 1 << 62, -top, -(1 << 62)])
+                    e2 = -e1
+                    if ka in FK and rng.chance(1, 3):
+                        e2 = e1 - rng.choice([0, 1, 2, 5]) * (1 if e1 > 0 else -1)
+                    f = a.split(":")
+                    f[-1] = hx(e1)
+                    a = ":".join(f)
+                    f = huge_tok(rng, kb, very=False).split(":")
+                    f[-1] = hx(e2)
+                    b = ":".join(f)
+                    if ka in FK and abs(e1 - e2) < 10:
+                        out.append("%s %s %s" % (rng.choice(["abs", "cmp"]), a, b))   # NumOrd would have to scale by B^e
+                        continue
                 else:
                     b = enc(rng, kb, gen_value(rng, tier))
             else:
